@@ -504,8 +504,15 @@ class PInputDispatcher(PDispatcher):
 
     def flush(self):
         # other code depends on this raising EPIPE if the pipe is closed
-        sent = self.process.config.options.write(self.fd,
-                                                 self.input_buffer)
+        try:
+            sent = self.process.config.options.write(self.fd,
+                                                     self.input_buffer)
+        except OSError as why:
+            if why.args[0] not in (errno.EAGAIN, errno.EWOULDBLOCK):
+                raise
+            # the (non-blocking) pipe is full: nothing was written, keep the
+            # data for the next write event
+            sent = 0
         self.input_buffer = self.input_buffer[sent:]
 
     def handle_write_event(self):
